@@ -8,6 +8,7 @@
 
 use crate::run::{acodec, apply, builder, classify, metadata, vcodec, RecSink};
 use muxide::api::{AudioCodec, Metadata, Muxer, MuxerBuilder};
+use crate::frag::{self, FCfg, FOp};
 use muxide::invariant_ppt;
 use oracle::frames::{audio_frame, video_frame, ACodec, VCodec};
 use oracle::hist::{self, HistSpec, PtsMode};
@@ -40,12 +41,16 @@ pub enum Step {
     LogGet,
     /// contract_test on an invariant this program's own calls have logged (must not panic)
     ContractOwn,
+    /// a call on the program's FragmentedMuxer (programs with `fcfg`)
+    Frag(FOp),
 }
 
 #[derive(Clone, Debug)]
 pub struct Program {
     pub name: &'static str,
     pub cfg: Cfg,
+    /// Some = the program drives a FragmentedMuxer of this configuration instead of a Muxer
+    pub fcfg: Option<FCfg>,
     pub steps: Vec<Step>,
 }
 
@@ -84,7 +89,65 @@ fn res_str(r: &Res) -> String {
     }
 }
 
+/// one call on a FragmentedMuxer; everything it returns goes into the result string or the bytes
+pub fn frag_step(m: &mut Option<muxide::fragmented::FragmentedMuxer>, op: &FOp, bytes: &mut Vec<u8>) -> String {
+    let Some(mx) = m.as_mut() else { return "no-muxer".into() };
+    let r = guarded(|| match op {
+        FOp::Write { pts, dts, data, sync } => {
+            let d = oracle::model::unhex(data).unwrap_or_default();
+            (format!("{:?}", mx.write_video(*pts, *dts, &d, *sync).map_err(|e| format!("{e:?}"))), vec![])
+        }
+        FOp::Flush => match mx.flush_segment() {
+            Some(seg) => (format!("segment({})", seg.len()), seg),
+            None => ("none".into(), vec![]),
+        },
+        FOp::Ready => (format!("ready={}", mx.ready_to_flush()), vec![]),
+        FOp::Dur => (format!("dur={}", mx.current_fragment_duration_ms()), vec![]),
+        FOp::Init => {
+            let i = mx.init_segment();
+            (format!("init({})", i.len()), i)
+        }
+    });
+    match r {
+        Ok((s, b)) => {
+            bytes.extend_from_slice(&b);
+            s
+        }
+        Err(e) => format!("panic:{e}"),
+    }
+}
+
+fn run_frag_program(p: &Program, fc: &FCfg, hook: Hook) -> Obs {
+    let mut obs = Obs { results: vec![], bytes: vec![], log: vec![], log_gets: vec![] };
+    hook();
+    invariant_ppt::clear_invariant_log();
+    let mut m = match guarded(|| frag::make(fc)) {
+        Ok(Ok(m)) => Some(m),
+        _ => None,
+    };
+    for s in &p.steps {
+        hook();
+        match s {
+            Step::Frag(op) => {
+                let r = frag_step(&mut m, op, &mut obs.bytes);
+                obs.results.push(r);
+            }
+            Step::LogClear => invariant_ppt::clear_invariant_log(),
+            Step::LogGet => obs.log_gets.push(invariant_ppt::get_logged_invariants().len()),
+            Step::ContractOwn | Step::Call(_) => {}
+        }
+    }
+    hook();
+    let mut log = invariant_ppt::get_logged_invariants();
+    log.sort();
+    obs.log = log;
+    obs
+}
+
 pub fn run_program(p: &Program, hook: Hook, private_vec: bool) -> Obs {
+    if let Some(fc) = &p.fcfg {
+        return run_frag_program(p, fc, hook);
+    }
     let buf = Arc::new(Mutex::new(Vec::new()));
     let mut obs = Obs { results: vec![], bytes: vec![], log: vec![], log_gets: vec![] };
     // two sink types: a shared-handle sink, and a private sink that is copied out at the end
@@ -99,6 +162,7 @@ pub fn run_program(p: &Program, hook: Hook, private_vec: bool) -> Obs {
         hook();
         match s {
             Step::Call(op) => obs.results.push(res_str(&apply(&mut m, op))),
+            Step::Frag(_) => {}
             Step::LogClear => invariant_ppt::clear_invariant_log(),
             Step::LogGet => obs.log_gets.push(invariant_ppt::get_logged_invariants().len()),
             Step::ContractOwn => {
@@ -167,14 +231,39 @@ fn a(codec: ACodec, i: usize, pts: f64) -> Step {
 pub fn programs() -> Vec<Program> {
     let mut p = vec![];
     let c = Cfg::basic(VCodec::H264, Some(ACodec::AacLc), false);
-    p.push(Program { name: "h264+aac/std", cfg: c, steps: vec![v(VCodec::H264, 0, 0.0, true), a(ACodec::AacLc, 0, 0.0), Step::LogGet, v(VCodec::H264, 1, 1.0 / 30.0, false), a(ACodec::AacLc, 1, 0.02), Step::ContractOwn, Step::Call(Op::FinishInPlaceStats), Step::Call(Op::WV { pts: T(9.0), data: Bytes::new(vec![1]), key: false })] });
+    p.push(Program { name: "h264+aac/std", cfg: c, fcfg: None, steps: vec![v(VCodec::H264, 0, 0.0, true), a(ACodec::AacLc, 0, 0.0), Step::LogGet, v(VCodec::H264, 1, 1.0 / 30.0, false), a(ACodec::AacLc, 1, 0.02), Step::ContractOwn, Step::Call(Op::FinishInPlaceStats), Step::Call(Op::WV { pts: T(9.0), data: Bytes::new(vec![1]), key: false })] });
     let c = Cfg::basic(VCodec::Av1, None, true);
-    p.push(Program { name: "av1/fast", cfg: c, steps: vec![v(VCodec::Av1, 0, 0.5, true), Step::LogClear, v(VCodec::Av1, 1, 0.6, false), v(VCodec::Av1, 2, 0.55, false), Step::Call(Op::FinishInPlaceStats)] });
+    p.push(Program { name: "av1/fast", cfg: c, fcfg: None, steps: vec![v(VCodec::Av1, 0, 0.5, true), Step::LogClear, v(VCodec::Av1, 1, 0.6, false), v(VCodec::Av1, 2, 0.55, false), Step::Call(Op::FinishInPlaceStats)] });
     let c = Cfg::basic(VCodec::Vp9, Some(ACodec::Opus), true);
-    p.push(Program { name: "vp9+opus/fast", cfg: c, steps: vec![v(VCodec::Vp9, 0, 0.0, true), a(ACodec::Opus, 0, 0.0), a(ACodec::Opus, 1, 0.0), Step::LogGet, Step::Call(Op::EV { data: Bytes::new(video_frame(VCodec::Vp9, false, false, 2, 5).0), dur_ms: 33 }), Step::Call(Op::FinishInPlaceStats)] });
+    p.push(Program { name: "vp9+opus/fast", cfg: c, fcfg: None, steps: vec![v(VCodec::Vp9, 0, 0.0, true), a(ACodec::Opus, 0, 0.0), a(ACodec::Opus, 1, 0.0), Step::LogGet, Step::Call(Op::EV { data: Bytes::new(video_frame(VCodec::Vp9, false, false, 2, 5).0), dur_ms: 33 }), Step::Call(Op::FinishInPlaceStats)] });
     let mut c = Cfg::basic(VCodec::H265, None, false);
     c.meta = Some(MMeta { title: Some("thread".into()), time: Some(1_234_567_890), lang: Some("deu".into()) });
-    p.push(Program { name: "h265/meta/std", cfg: c, steps: vec![v(VCodec::H265, 0, 1.0, true), Step::Call(Op::WVD { pts: T(1.2), dts: T(1.1), data: Bytes::new(video_frame(VCodec::H265, false, false, 2, 6).0), key: false }), Step::LogClear, Step::ContractOwn, Step::Call(Op::FinishInPlaceStats)] });
+    p.push(Program { name: "h265/meta/std", cfg: c, fcfg: None, steps: vec![v(VCodec::H265, 0, 1.0, true), Step::Call(Op::WVD { pts: T(1.2), dts: T(1.1), data: Bytes::new(video_frame(VCodec::H265, false, false, 2, 6).0), key: false }), Step::LogClear, Step::ContractOwn, Step::Call(Op::FinishInPlaceStats)] });
+    p
+}
+
+fn fw(pts: u64, dts: u64, len: usize, tag: u8, sync: bool) -> Step {
+    let d: Vec<u8> = (0..len).map(|i| tag.wrapping_add(i as u8)).collect();
+    Step::Frag(FOp::Write { pts, dts, data: oracle::model::hex(&d), sync })
+}
+
+/// the four progressive programs plus two that drive a FragmentedMuxer (indices 4 and 5)
+pub fn all_programs() -> Vec<Program> {
+    let mut p = programs();
+    let f1 = FCfg { codec: VCodec::H264, via_builder: true, timescale: 90000, fragment_ms: 50, start_dts: 0, width: 640, height: 480, ps_len: 10 };
+    p.push(Program {
+        name: "frag/h264/builder",
+        cfg: Cfg::basic(VCodec::H264, None, false),
+        fcfg: Some(f1),
+        steps: vec![Step::Frag(FOp::Init), fw(3000, 0, 9, 0x11, true), fw(9000, 3000, 5, 0x21, false), Step::LogGet, Step::Frag(FOp::Ready), Step::Frag(FOp::Flush), fw(2000, 2000, 3, 0x31, false), fw(12000, 9000, 7, 0x41, true), Step::Frag(FOp::Flush), Step::Frag(FOp::Init)],
+    });
+    let f2 = FCfg { codec: VCodec::H265, via_builder: false, timescale: 48000, fragment_ms: 1, start_dts: 9000, width: 320, height: 240, ps_len: 30 };
+    p.push(Program {
+        name: "frag/h265/config",
+        cfg: Cfg::basic(VCodec::H265, None, false),
+        fcfg: Some(f2),
+        steps: vec![fw(9000, 9000, 4, 0x51, true), fw(9050, 9048, 300, 0x61, false), Step::Frag(FOp::Flush), Step::Frag(FOp::Init), Step::LogClear, fw(9100, 9100, 0, 0, true), Step::Frag(FOp::Dur), Step::Frag(FOp::Flush)],
+    });
     p
 }
 
@@ -224,16 +313,16 @@ fn solo(progs: &[Program]) -> Vec<Obs> {
 }
 
 fn schedules_part(ctx: &Ctx, t: &mut Tally) -> Result<(), String> {
-    let progs = programs();
+    let progs = all_programs();
     let reference = solo(&progs);
     let reference2 = solo(&progs);
     if reference != reference2 {
         t.violation("C17/solo-run-not-reproducible", (0, 0), || "two solo runs of the same program on fresh threads differ".into(), || json!({"engine": "E4", "what": "solo"}));
     }
     let setups: Vec<(&str, Vec<Vec<usize>>, usize, bool)> = if ctx.thorough {
-        vec![("2 threads x 2 programs", vec![vec![0, 1], vec![2, 3]], 3, false), ("2 threads x 2 programs (private sinks)", vec![vec![1, 0], vec![3, 2]], 2, true), ("3 threads x 1 program", vec![vec![0], vec![1], vec![3]], 2, false), ("same program on 2 threads", vec![vec![0], vec![0]], 3, true)]
+        vec![("2 threads x 2 programs", vec![vec![0, 1], vec![2, 3]], 3, false), ("2 threads x 2 programs (private sinks)", vec![vec![1, 0], vec![3, 2]], 2, true), ("3 threads x 1 program", vec![vec![0], vec![1], vec![3]], 2, false), ("same program on 2 threads", vec![vec![0], vec![0]], 3, true), ("fragmented next to progressive", vec![vec![4, 2], vec![1, 5]], 3, false), ("two fragmented muxers", vec![vec![4], vec![5]], 4, false), ("same fragmented program on 2 threads", vec![vec![4], vec![4]], 3, false), ("3 threads: fragmented x 2 + progressive", vec![vec![4], vec![5], vec![0]], 2, false)]
     } else {
-        vec![("2 threads x 2 programs", vec![vec![0, 1], vec![2, 3]], 2, false), ("3 threads x 1 program", vec![vec![1], vec![2], vec![3]], 1, true), ("same program on 2 threads", vec![vec![0], vec![0]], 2, true)]
+        vec![("2 threads x 2 programs", vec![vec![0, 1], vec![2, 3]], 2, false), ("3 threads x 1 program", vec![vec![1], vec![2], vec![3]], 1, true), ("same program on 2 threads", vec![vec![0], vec![0]], 2, true), ("fragmented next to progressive", vec![vec![4, 2], vec![1, 5]], 2, false), ("two fragmented muxers", vec![vec![4], vec![5]], 3, false), ("same fragmented program on 2 threads", vec![vec![4], vec![4]], 2, false), ("3 threads: fragmented x 2 + progressive", vec![vec![4], vec![5], vec![0]], 1, false)]
     };
     for (si, (name, assign, bound, private)) in setups.iter().enumerate() {
         // determinism self-check: the same schedule twice gives the same record and observations
@@ -348,40 +437,98 @@ fn calls_of(p: &Program) -> Vec<Op> {
     p.steps.iter().filter_map(|s| if let Step::Call(o) = s { Some(o.clone()) } else { None }).collect()
 }
 
+/// one muxer object of either kind, driven call by call on the current thread
+enum Inst {
+    Prog(Option<Muxer<RecSink>>, std::rc::Rc<std::cell::RefCell<crate::run::SinkState>>),
+    Frag(Option<muxide::fragmented::FragmentedMuxer>, Vec<u8>),
+}
+
+#[derive(Clone, Debug)]
+enum AnyOp {
+    P(Op),
+    F(FOp),
+}
+
+fn any_calls(p: &Program) -> Vec<AnyOp> {
+    p.steps
+        .iter()
+        .filter_map(|s| match s {
+            Step::Call(o) if p.fcfg.is_none() => Some(AnyOp::P(o.clone())),
+            Step::Frag(o) if p.fcfg.is_some() => Some(AnyOp::F(o.clone())),
+            _ => None,
+        })
+        .collect()
+}
+
+impl Inst {
+    fn new(p: &Program) -> Inst {
+        match &p.fcfg {
+            Some(fc) => Inst::Frag(guarded(|| frag::make(fc)).ok().and_then(|r| r.ok()), vec![]),
+            None => {
+                let s = RecSink::default();
+                let st = s.0.clone();
+                Inst::Prog(builder(&p.cfg, s).build().ok(), st)
+            }
+        }
+    }
+    fn step(&mut self, op: &AnyOp) -> String {
+        match (self, op) {
+            (Inst::Prog(m, _), AnyOp::P(o)) => res_str(&apply(m, o)),
+            (Inst::Frag(m, b), AnyOp::F(o)) => frag_step(m, o, b),
+            _ => "mismatched-op".into(),
+        }
+    }
+    fn bytes(&self) -> Vec<u8> {
+        match self {
+            Inst::Prog(_, st) => st.borrow().bytes.clone(),
+            Inst::Frag(_, b) => b.clone(),
+        }
+    }
+}
+
 fn same_thread_part(t: &mut Tally) {
-    let progs = programs();
+    let progs = all_programs();
     let solos: Vec<(Vec<String>, Vec<u8>)> = progs
         .iter()
         .map(|p| {
-            let ex = crate::run::run(&p.cfg, &calls_of(p));
-            (ex.results.iter().map(res_str).collect(), ex.bytes)
+            let mut i = Inst::new(p);
+            let r: Vec<String> = any_calls(p).iter().map(|o| i.step(o)).collect();
+            (r, i.bytes())
         })
         .collect();
+    // the progressive solos must agree with the plain history runner used everywhere else
+    for (p, s) in progs.iter().zip(&solos) {
+        if p.fcfg.is_none() {
+            let ex = crate::run::run(&p.cfg, &calls_of(p));
+            let r: Vec<String> = ex.results.iter().map(res_str).collect();
+            if (r, ex.bytes) != *s {
+                t.violation("C17/instances-on-one-thread-interfere", (199, 0), || format!("program {}: two solo runs on one thread differ", p.name), || json!({"engine": "E4-same-thread", "a": p.name, "b": p.name, "interleaving": []}));
+            }
+        }
+    }
     let mut k = 0u64;
     for i in 0..progs.len() {
         for j in 0..progs.len() {
-            let (ca, cb) = (calls_of(&progs[i]), calls_of(&progs[j]));
+            let (ca, cb) = (any_calls(&progs[i]), any_calls(&progs[j]));
             for il in interleavings(ca.len(), cb.len()) {
                 k += 1;
                 t.evaluations += 1;
                 t.states += 1;
-                let (sa, sb) = (RecSink::default(), RecSink::default());
-                let (sta, stb) = (sa.0.clone(), sb.0.clone());
-                let mut ma = builder(&progs[i].cfg, sa).build().ok();
-                let mut mb = builder(&progs[j].cfg, sb).build().ok();
+                let mut ma = Inst::new(&progs[i]);
+                let mut mb = Inst::new(&progs[j]);
                 let (mut ra, mut rb) = (vec![], vec![]);
                 let (mut ia, mut ib) = (0, 0);
                 for &first in &il {
                     if first {
-                        ra.push(res_str(&apply(&mut ma, &ca[ia])));
+                        ra.push(ma.step(&ca[ia]));
                         ia += 1;
                     } else {
-                        rb.push(res_str(&apply(&mut mb, &cb[ib])));
+                        rb.push(mb.step(&cb[ib]));
                         ib += 1;
                     }
                     t.transitions += 1;
                 }
-                let (ba, bb) = (sta.borrow().bytes.clone(), stb.borrow().bytes.clone());
+                let (ba, bb) = (ma.bytes(), mb.bytes());
                 if (ra, ba) != solos[i] || (rb, bb) != solos[j] {
                     t.violation("C17/instances-on-one-thread-interfere", (200, k), || format!("programs {} and {} interleaved as {il:?} on one thread: an instance's results or bytes differ from its solo run", progs[i].name, progs[j].name), || json!({"engine": "E4-same-thread", "a": progs[i].name, "b": progs[j].name, "interleaving": il}));
                 }
@@ -1023,7 +1170,7 @@ pub fn check(ctx: &Ctx) -> i32 {
 pub fn replay(case: &Value) -> i32 {
     match case["engine"].as_str() {
         Some("E4") => {
-            let progs = programs();
+            let progs = all_programs();
             let assign: Vec<Vec<usize>> = serde_json::from_value(case["assign"].clone()).unwrap_or_default();
             let choices: Vec<usize> = serde_json::from_value(case["choices"].clone()).unwrap_or_default();
             let private = case["private_sinks"].as_bool().unwrap_or(false);
